@@ -16,6 +16,7 @@ from vmon.oracle import geometry as G
 from vmon.oracle.invariant import inconsistencies
 
 EVALS = {}
+ALL_FAILS = []
 F8_KEY = "pair-table-shorter-than-type-table-on-merge"
 # set by a check while it re-reads a file written from an object that carries the F8 mechanism flag: the object constructed
 # by the reader is new and cannot carry the flag itself
@@ -48,6 +49,9 @@ def _ev(name, n=1):
 def report(owner, clause, reason, witness=None, key=None):
     ctx = _ctx[0]
     st = _stats[0]
+    if _running[0] == "*":          # the repository's own tests under monitors: collect everything
+        ALL_FAILS.append({"owner": owner, "clause": clause, "reason": reason})
+        return
     if ctx is not None and _running[0] == owner:
         ctx.fail("[contract %s/%s] %s" % (owner, clause, reason), witness=witness, key=key)
     elif st is not None:
